@@ -40,7 +40,7 @@ def h_factory(kind):
         e.assume(seed < 2 ** 32)
         if kind == 'normal':
             a, b = e.real('mean'), e.real('var')
-            e.assume(b > 0)
+            e.assume(b >= 0)          # var = 0 is a point mass
             f = nz.normal(a, b)
             key = 'z'
         elif kind == 'uniform':
@@ -50,7 +50,7 @@ def h_factory(kind):
             key = 'u'
         elif kind == 'laplace':
             a, b = e.real('mean'), e.real('scale')
-            e.assume(b > 0)
+            e.assume(b >= 0)
             f = nz.laplace(a, b)
             key = 'e'
         else:
